@@ -542,4 +542,22 @@ def run(scen):
         trace.hang = trace.hang or str(sched.error)
         sched.error = None
     trace.tcalls = tcalls
+    # Line-trace functions stay referenced from frames of lomond's generators
+    # (f_trace) beyond what the collector can see; cut every link from the
+    # scheduler to the world, the threads and their closures so that a
+    # surviving scheduler shell costs bytes, not the whole run.
+    for t in sched.threads:
+        t.target = None
+        t.thread = None
+        t.ready_fn = None
+        t.blocked_on = None
+        t.exc = None
+    for lk in sched._locks:
+        lk.sched = None
+        lk.waiters = []
+    sched.threads = []
+    sched._locks = []
+    sched.w = None
+    sched.chooser = None
+    sched.current = None
     return trace, sched
